@@ -660,6 +660,28 @@ def r10(ctx, rule='C01.R10'):
               'file_hash reads `chunk.len` bytes at `chunk.pos`, both cut from the length recorded by the scan, and never looks at the current length of the file (it even discards the number of bytes read): '
               'a file that was appended to after the scan is hashed over its old length and reported as a duplicate with that length, a file that was truncated is hashed over fewer bytes than reported - '
               'both silently')
+    # ... and the length is only worth something if it says how much data there is: the number of bytes that stream_hash read is compared with what the
+    # length promises, and a chunk that ends at the end of the file is followed by a probe for more data
+    sh = b.calls(r'hasher::stream_hash$')
+    counted = False
+    probe = [c for c in b.calls(r'Read>::read$|Read::read$|::read_exact$|::read_to_end$') if True]
+    if sh:
+        for cmp in comparisons(b):
+            for x in (cmp.a, cmp.b):
+                sl = backslice(b, [x])
+                if any(k.bb == sh[0].bb for k in sl.calls) and cmp.op in ('==', '!='):
+                    other = backslice(b, [cmp.b if x is cmp.a else cmp.a])
+                    if 'file_len' in other.field_names() or other.has_call(r'cmp::min$'):
+                        br = branch_of(b, cmp)
+                        if br:
+                            ne_side = br[1] if cmp.op == '!=' else br[2]
+                            if 'Err' in return_variants_from(b, ne_side):
+                                counted = True
+    ctx.check(bool(sh) and counted and bool(probe), rule, b.path + '|amount-read-matches-length', (sh[0].where() if sh else b.where()),
+              'file_hash fails when the number of bytes read differs from what the scanned length promises, or when more data follow a chunk that ends at the end of the file',
+              'file_hash discards the number of bytes that stream_hash read and compares only st_size with st_size: a file whose reported length says nothing about its data (procfs: 0 B with contents, '
+              'sysfs: 4096 B with two bytes) is hashed over whatever comes - two /proc files with different contents ("65536", "65534") are reported as one group of "0 B" files when they agree in the '
+              'first --max-prefix-size bytes (the contents stage is skipped for a file shorter than the prefix), and sysfs files are reported with a length of 4096 B')
     n = 0
     for st in ('group_by_prefix', 'group_by_suffix', 'group_by_contents'):
         pb, rh, hc = hash_closure_of(lib, st)
